@@ -83,10 +83,11 @@ def canon(v, index):
 
 
 def clskey(u):
-    k = '%s/%s' % (type(u).__name__, u.rate)
+    """[class name (+ operator) / number of outputs / special index, rate]"""
+    k = type(u).__name__
     if isinstance(u, BasicOpUGen):
         k += '/%s' % u.operator
-    return k
+    return ['%s/o%d/s%d' % (k, u._num_outputs(), u._special_index), u.rate]
 
 
 def _label(ins, k):
@@ -110,8 +111,14 @@ def make_prelude(spec):
     for j, kind in enumerate(spec):
         if kind == 'sin':
             pre.append(ocl.SinOsc.ar(100 + j, 0))
+        elif kind == 'sink':
+            pre.append(ocl.SinOsc.kr(100 + j, 0))
+        elif kind == 'ir':
+            pre.append(trg.Clip.ir(100 + j, 0, 1))
         elif kind == 'pan':
             pre.append(pan_.Pan2.ar(100 + j, 0, 1))
+        elif kind == 'pank':
+            pre.append(pan_.Pan2.kr(100 + j, 0, 1))
         else:
             raise ValueError(kind)
     return pre
